@@ -19,32 +19,48 @@ use std::fmt::Write as _;
 #[derive(Debug, Clone)]
 struct OpInfo { name: String, fields: Vec<(String, String)>, visit: String }
 
-// copied from refers.rs (the macro body is regular: `Name { f: T, .. } => visit_name (annotation)`)
+// The macro body is a sequence of `Name => visit_name (annotation)` / `Name { f: T, .. } => visit_name (annotation)`
+// entries inside `@group { .. }` blocks; entries may span several lines (BrOnCast), so the text is scanned
+// entry by entry, not line by line.
 fn parse_optable(src: &str) -> Vec<OpInfo> {
     let start = src.find("macro_rules! _for_each_operator_group").unwrap_or_else(|| crate::shape_changed!("wasmparser: _for_each_operator_group not found"));
     let end = src[start..].find("macro_rules! _for_each_operator_delegate").map(|e| start + e).unwrap_or(src.len());
-    let body = &src[start..end];
+    // drop `//` comments, collapse whitespace
+    let body: String = src[start..end].lines().map(|l| l.split("//").next().unwrap()).collect::<Vec<_>>().join(" ");
+    let body: String = body.split_whitespace().collect::<Vec<_>>().join(" ");
     let mut out = vec![];
-    for line in body.lines() {
-        let l = line.trim();
-        if let Some(pos) = l.find("=> visit_") {
-            let lhs = l[..pos].trim();
-            let rhs = &l[pos + 3..];
-            let visit = rhs.split_whitespace().next().unwrap().to_string();
-            let (name, fields) = if let Some(b) = lhs.find('{') {
-                let name = lhs[..b].trim().to_string();
-                let close = lhs.rfind('}').unwrap_or_else(|| crate::shape_changed!("wasmparser operator line `{l}`"));
-                let inner = &lhs[b + 1..close];
-                let fields = inner.split(',').filter(|s| !s.trim().is_empty()).map(|f| {
-                    let mut it = f.splitn(2, ':');
-                    let n = it.next().unwrap().trim().to_string();
-                    let t = it.next().unwrap_or_else(|| crate::shape_changed!("wasmparser operator line `{l}`")).trim().to_string();
-                    (n, t)
-                }).collect();
-                (name, fields)
-            } else { (lhs.to_string(), vec![]) };
-            if name.chars().next().map(|c| c.is_uppercase()).unwrap_or(false) { out.push(OpInfo { name, fields, visit }); }
-        }
+    let mut prev_end = 0usize;
+    let mut from = 0usize;
+    while let Some(rel) = body[from..].find("=> visit_") {
+        let p = from + rel;
+        let lhs = body[prev_end..p].trim();
+        let (name, fields): (String, Vec<(String, String)>) = if lhs.ends_with('}') {
+            let b = lhs.rfind('{').unwrap_or_else(|| crate::shape_changed!("wasmparser operator entry `{lhs}`"));
+            let name = lhs[..b].trim().rsplit(|c: char| !(c.is_alphanumeric() || c == '_')).next().unwrap_or("").to_string();
+            let inner = &lhs[b + 1..lhs.len() - 1];
+            let fields = inner.split(',').filter(|s| !s.trim().is_empty()).map(|f| {
+                let mut it = f.splitn(2, ':');
+                let n = it.next().unwrap().trim().to_string();
+                let t = it.next().unwrap_or_else(|| crate::shape_changed!("wasmparser operator entry `{lhs}`")).trim().to_string();
+                (n, t)
+            }).collect();
+            (name, fields)
+        } else {
+            (lhs.rsplit(|c: char| !(c.is_alphanumeric() || c == '_')).next().unwrap_or("").to_string(), vec![])
+        };
+        let rhs = &body[p + 3..];
+        let visit: String = rhs.chars().take_while(|c| c.is_alphanumeric() || *c == '_').collect();
+        // the parenthesised annotation that follows closes the entry
+        let after = p + 3 + visit.len();
+        let open = body[after..].find('(').map(|o| after + o).unwrap_or_else(|| crate::shape_changed!("wasmparser operator entry `{name}`: no annotation"));
+        if !body[after..open].trim().is_empty() { crate::shape_changed!("wasmparser operator entry `{name}`: unexpected text before the annotation"); }
+        let mut depth = 0i32; let mut close = open;
+        for (k, c) in body[open..].char_indices() { if c == '(' { depth += 1 } else if c == ')' { depth -= 1; if depth == 0 { close = open + k; break; } } }
+        if close == open { crate::shape_changed!("wasmparser operator entry `{name}`: unbalanced annotation"); }
+        prev_end = close + 1; from = close + 1;
+        let is_variant = name.chars().next().map(|c| c.is_uppercase()).unwrap_or(false);
+        if is_variant { out.push(OpInfo { name, fields, visit }); }
+        else if !name.starts_with('$') { crate::shape_changed!("wasmparser operator entry with unexpected name `{name}`"); }   // `$op ... => $visit` never matches "=> visit_"
     }
     if out.len() < 100 { crate::shape_changed!("wasmparser operator table: only {} operators recognised", out.len()); }
     out
